@@ -280,7 +280,7 @@ def run_life(case):
 _sched = st.fixed_dictionaries({'prefix': st.lists(st.integers(0, 3), max_size=40), 'seed': st.integers(0, 10 ** 6),
                                 'rate': st.sampled_from([0.0, 0.0, 0.05, 0.2, 0.5])})
 _attempt = st.fixed_dictionaries({
-    'fault': st.one_of(st.none(), st.fixed_dictionaries({'k': st.integers(1, 90), 'reporter': st.sampled_from(['driver', 'sender'])})),
+    'fault': st.one_of(st.none(), st.fixed_dictionaries({'k': st.integers(1, 90), 'reporter': st.sampled_from(['driver', 'sender', 'driver-quiet'])})),
     'close_at': st.one_of(st.none(), st.none(), st.sampled_from([0.0, 0.0005, 0.002, 0.005, 0.01, 0.02, 0.05, 0.3, 2.0])),
     'sync': st.booleans()})
 
@@ -296,13 +296,20 @@ def life_case(draw):
 def sweep_cases(tier):
     kmax = 70
     for (nlog, nparam, mems) in ((2, 3, [1]), (0, 0, [])):
-        for rep in ('driver', 'sender'):
+        for rep in ('driver', 'sender', 'driver-quiet'):
             for sync in (False, True):
                 step = 1 if tier == 'thorough' else 2
                 for k in range(1, kmax, step):
                     yield {'nlog': nlog, 'nparam': nparam, 'mems': mems, 'version': 10, 'needs_resending': False, 'delays': [0.001],
                            'attempts': [{'fault': {'k': k, 'reporter': rep}, 'close_at': None, 'sync': sync}],
                            'schedule': {'prefix': [], 'seed': k, 'rate': 0.0 if k % 2 else 0.2}}
+                    if rep == 'sender' and not sync:
+                        # no latency at all: the whole session happens in one instant, the threads (dispatcher, parameter updater,
+                        # latency ping, the caller) interleave as the schedule says; the error comes from whichever thread sends
+                        for seed in (1, 2):
+                            yield {'nlog': nlog, 'nparam': nparam, 'mems': mems, 'version': 10, 'needs_resending': False, 'delays': [0.0],
+                                   'attempts': [{'fault': {'k': k, 'reporter': rep}, 'close_at': None, 'sync': sync}],
+                                   'schedule': {'prefix': [], 'seed': 100 * seed + k, 'rate': 0.5}}
 
 
 def dup_sweep_cases(tier):
